@@ -129,6 +129,7 @@ func mixed(c Case) {
 			k := fmt.Sprintf("%s(%d)", st.Op, st.Level)
 			if f, ok := firstAnswer[k]; !ok {
 				firstAnswer[k] = a
+				h.Unique(k, a, "C20|"+st.Op+"|differs-across-processes")
 			} else if f != a {
 				h.Violate("C20|"+st.Op+"|history-dependent", fmt.Sprintf("history %+v: step %d %s answers %s, it answered %s when first evaluated in this process", c.Seq, i, k, a, f), c)
 				return
@@ -250,6 +251,20 @@ func allAnswers(choices []int) map[string]string {
 		one(Case{Op: "fromgo", Level: l})
 		one(Case{Op: "roundtrip", Level: l})
 	}
+	// ... and once more now that the forward translation has been used in this process: a fresh
+	// process answers the back-translations first, every other history answers them later
+	for l := -2; l <= 8; l++ {
+		for _, op := range []string{"togo", "string"} {
+			var got string
+			x := vrt.Run(vrt.Config{Choices: choices, Lenient: true}, func() { got = eval(Case{Op: op, Level: l}) })
+			if x.Failure != nil {
+				got = "failure:" + x.Failure.Kind
+			}
+			if first := out[fmt.Sprintf("%s(%d)", op, l)]; first != got {
+				out[fmt.Sprintf("%s(%d)", op, l)] = fmt.Sprintf("%s before / %s after the first forward translation of the process", first, got)
+			}
+		}
+	}
 	return out
 }
 
@@ -330,6 +345,7 @@ func sweepProcesses() {
 
 func main() {
 	h = hlib.Init("C20")
+	h.UniqueReplay = Case{Op: "process-sweep"}
 	if c := hlib.Child(); c != "" {
 		ord, _ := strconv.Atoi(c)
 		bs, _ := json.Marshal(allAnswers(orderChoices(ord)))
